@@ -21,7 +21,7 @@ def run(ctx):
     ctx.proof("DispatchVerif.Props.C04", THEOREMS)
     ctx.assumptions += ["sequentially consistent interleaving model of the atomic operations", "priority / override bits of dq_state are not modelled",
                         "known finding F15: a dispatch_barrier_sync on the fast path can start before an asynchronous item whose submission had returned"]
-    cfg = [(4, 400, 0), (8, 300, 0), (12, 200, 0)] if not ctx.thorough else [(4, 3000, 0), (8, 2500, 0), (12, 2000, 0), (16, 1500, 0), (3, 4000, 0)]
+    cfg = [(4, 400, 0), (8, 300, 0), (12, 200, 0), (4, 800, 0, 0, -2), (4, 800, 0, 0, -3)] if not ctx.thorough else [(4, 3000, 0), (8, 2500, 0), (12, 2000, 0), (16, 1500, 0), (3, 4000, 0), (4, 8000, 0, 0, -2), (4, 8000, 0, 0, -3), (4, 8000, 0, 0, -5)]
     run_lane(ctx, cfg, what="c04", order_property=True)
     forced(ctx, "f15_sync_overtake", "F15", "lane:order:sync-fastpath-overtakes:forced-F15", "F15")
     ctx.cov["rule"] = ("tr_lane workloads on a serial and a concurrent queue: barrier / non-barrier async and sync items, async_and_wait, group_async, dispatch_apply on the queue, "
